@@ -341,7 +341,7 @@ def cdr_groups_finding(M):
 def ref_cdr(code):
     """reference: groups C.D.E of a six-group OBIS code written with any of the standard separators"""
     parts = code.replace("-", ".").replace(":", ".").replace("*", ".").split(".")
-    return ".".join(parts[2:5])
+    return ".".join(str(int(x)) if x.isdigit() else x for x in parts[2:5])
 
 
 def obis_hook(args, kw):
